@@ -499,17 +499,18 @@ def fam_conn(tier, seed):
     # a failed reconnect verification standing right before its demotion while the term is ended by another path (stop call or
     # the heartbeat): one demotion callback (scheduler gate at the handler's log line)
     for k in range(4 if tier == "quick" else 24):
-        H = rng.choice([500 * MS, 1 * S])
-        t = int((1.4 + rng.random()) * H)
+        H = 1 * S
+        n = rng.choice([1, 2, 3])
+        t = n * H + 160 * MS      # right after a refresh of the leader (it leads from about 20 ms on): the next one is almost H away
         insts = [inst("A", conn=True, grace_us=8 * H, gate_log="demoting_due_to_reconnect_verification_failure")]
-        steps = [{"at": 0, "do": "start", "i": "A"}, {"at": t - H // 4, "do": "disc", "i": "A"},
-                 {"at": t - H // 8, "do": "out_put", "cls": rng.choice(["as:B", "other"])}, {"at": t, "do": "reconn", "i": "A"}]
-        if k % 2 == 0:
+        steps = [{"at": 0, "do": "start", "i": "A"}, {"at": t - 60 * MS, "do": "disc", "i": "A"},
+                 {"at": t - 10 * MS, "do": "out_put", "cls": rng.choice(["as:B", "other"])}, {"at": t, "do": "reconn", "i": "A"}]
+        if k % 2 == 0:      # the term is ended by a stop call while the handler stands before its demotion ...
             steps.append(dict(STOP_VARIANTS[(k // 2) % len(STOP_VARIANTS)], at=t + 400 * MS, i="A"))
             steps.append({"at": t + 400 * MS, "do": "release_gate", "i": "A"})
-        else:
-            steps.append({"at": t + H + 300 * MS, "do": "release_gate", "i": "A"})
-        out.append(scn("conn-verification-failure-races-term-end-%d" % k, seed * 1000 + 995 + k, H, 3.0, insts, steps, "conn", t + 8 * S, lat=int(H * 0.04)))
+        else:               # ... or by the next heartbeat, which fails on the replaced record
+            steps.append({"at": t + H + 100 * MS, "do": "release_gate", "i": "A"})
+        out.append(scn("conn-verification-failure-races-term-end-%d" % k, seed * 1000 + 995 + k, H, 3.0, insts, steps, "conn", t + 8 * S, lat=20 * MS))
     # a stop call issued while the reconnect handler stands between its leader check and the start of the verification
     # (scheduler gate at the handler's log line)
     for k in range(4 if tier == "quick" else 24):
